@@ -543,13 +543,21 @@ def rule_guard(ctx):
     for f in chk:
         key = fn_key(f)
         res.instance("%s : rejects restored parameters without their tokenizer function" % key)
-        tr = Tracer(f).run()
+        tr = Tracer(f, inline=ctx.inliner(cfg="serde")).run()
         errs = [e for e in tr.events if e.kind == "call" and e.name == "Err" and e.args and as_term(e.args[0]) is not None and as_term(e.args[0]).op.endswith("TokenizerNotSet")]
         if any(any("tokenizer_deserialization_guard" in g[1] for g in e.guards) and any("tokenizer_function" in g[1] for g in e.guards) for e in errs):
             res.ok()
         else:
             res.violate("%s : restored-params-not-rejected" % key, "a parameter set restored without its tokenizer function (guard raised, function None) passes validation and refits with the default regex instead of returning TokenizerNotSet", fn_loc(f))
     return res.finish(6)
+
+
+def _inliner_takes_cfg(ctx):
+    import inspect
+    try:
+        return "cfg" in inspect.signature(ctx.inliner).parameters
+    except (TypeError, ValueError):
+        return False
 
 
 def rule_regex(ctx):
